@@ -58,6 +58,11 @@ class RealBackend:
             return []
         if value == 'krsig':
             return self.m['osc'].SinOsc.kr(t)
+        if value == 'tuple':
+            # tuples are never expanded: the unit keeps the pair as ONE
+            # input; the library must either refuse that or write it well
+            c = self.m['osc'].SinOsc
+            return (c.ar(t), c.ar(t))
         raise ValueError(value)
 
     def flatten(self, v):
@@ -930,7 +935,7 @@ def work_scaled(job):
 # (E) single-fault enumeration: invalid graphs must be rejected
 # --------------------------------------------------------------------------
 
-FAULT_VALUES = ['nan', 'str', 'none', 'empty']
+FAULT_VALUES = ['nan', 'str', 'none', 'empty', 'tuple']
 SLOTS = {'sin': 1, 'noise': 1, 'nest': 1, 'in': 1, 'pan': 2, 'mul': 2,
          'add': 2, 'mul2': 2, 'add2': 2, 'lpf': 2, 'seed': 1, 'rid': 1,
          'lbuf': 1, 'set': 2, 'clear': 1, 'bufrd': 2, 'fft': 3, 'pv': 2,
@@ -1014,7 +1019,7 @@ def check_fault(prog):
         e = res[2]
         return [], f'raised-{res[1]}-{type(e).__name__}'
     _, sd, data = res
-    if f['value'] != 'empty':
+    if f['value'] not in ('empty', 'tuple'):
         d = None
         try:
             d = scgf.decode(data)['defs'][0]
@@ -1026,9 +1031,11 @@ def check_fault(prog):
                  f'fault {f}')], 'compiled'
     d, dis = decode_one(data, 'g')
     if d is None or any(k == 'scgf-integrity' for k, *_ in dis):
-        return [(f'empty-list-compiled-malformed', 'an exception or a '
+        return [(f'{fk}-input-compiled-malformed', 'an exception or a '
                  'well-formed definition', dis[0][2], f'fault {f}')], \
             'malformed'
+    if fk == 'tuple':
+        return [], 'tuple-compiled-wellformed'
     dis = [(f'empty-list-compiled-{k}', a, b, c)
            for k, a, b, c in
            [(k, None, det, '') for k, det in xg.form_problems(d)]]
